@@ -69,6 +69,9 @@ def run_cut(ident, tier, seed, res):
                 if path.kind == 'exc':
                     res['discharged'] += 1
                     raised += 1
+                    if len(res['witnesses']) < 2 and eng.check3() == 'sat':
+                        # reachability witness: a concrete truncated payload of this path must be rejected by the real code
+                        res['witnesses'].append({'kind': 'construct', 'payload': d.payload_from_model(eng.model()).hex(), 'checks': ['overrun', 'total']})
                 elif path.kind == 'ret':
                     res['refuted'] += 1
                     if eng.check3() == 'sat':
@@ -81,14 +84,6 @@ def run_cut(ident, tier, seed, res):
                     res['inconclusive'].append(f"{ident} {st} cut {cut}: {path.kind} {path.value}")
             res.absorb_engine(eng)
             res.count('cuts')
-            if raised and len(res['witnesses']) < 2:
-                # reachability witness: a concrete truncated payload must be rejected by the real code
-                eng2 = sym.Engine(max_paths=1)
-                for path in eng2.explore(fn):
-                    if eng2.check3() == 'sat':
-                        res['witnesses'].append({'kind': 'construct', 'payload': d.payload_from_model(eng2.model()).hex(),
-                                                 'checks': ['overrun', 'total']})
-                    break
         if not res['samples']:
             res['samples'].append({'identity': ident, 'structure': st, 'needed_bytes': d0.need,
                                    'cuts': cuts_for(d0.need, minlen, tier, random.Random(0))[:12]})
